@@ -1701,6 +1701,8 @@ class Color(object):
     def opacity(self, opacity):
         if self.value is None:
             raise ValueError
+        # Opacity is clamped to the range 0 to 1, an infinite value cannot be converted to int.
+        opacity = min(max(opacity, 0.0), 1.0)
         a = int(round(opacity * 255.0))
         a = Color.crimp(a)
         self.alpha = a
